@@ -7,6 +7,22 @@ from vlib import core
 class MEngine:
     def __init__(self, ctx, scratch=None):
         self.ctx = ctx
+        dev = os.environ.get('VERIF_DEV_MIR')          # developer shortcut (never used by registered commands): reuse a MIR dump
+        if dev:
+            class _S:
+                dir = os.path.dirname(dev)
+            self.sc = _S()
+            self.text = open(dev).read()
+            self.ok = True
+            self.fns = mir.parse_mir(self.text)
+            self.src_root = os.path.join(self.sc.dir, 'src')
+            mir.learn_variants(self.src_root)
+            self.models = models.Models()
+            self.pool = smt.Pool()
+            self.pending = []
+            self.touched = set()
+            self._vac = set()
+            return
         self.sc = scratch or ctx.scratch(None)
         t = time.time()
         env = dict(core.ENV)
